@@ -623,6 +623,18 @@ static void run_case(Case &c)
     API("opn2_setDeviceIdentifier", rc = opn2_setDeviceIdentifier(dev, id));
     if(rc != 0 || P(dev)->m_sysExDeviceId != id) { c.violation("oracle:C19:device-id-not-set", vfmt("opn2_setDeviceIdentifier(%u) -> %d", id, rc)); API("opn2_close", opn2_close(dev)); return; }
 
+    // "this device id" is the one that was set, also after a reset or a music load in between
+    {
+        int between = (int)r.below(5);
+        if(between == 1) { API("opn2_reset", opn2_reset(dev)); count("cases_with_a_reset_after_setting_the_device_id"); }
+        else if(between == 2)
+        {
+            SongOpts so; so.max_tracks = 2; so.max_events = 6; so.sysex_meta = false;
+            Song sg = gen_song(r, so); std::vector<uint8_t> f = serialize_song(sg);
+            ExactBuf in(f); int rl = 0; API("opn2_openData", rl = opn2_openData(dev, in.p, (unsigned long)in.n)); (void)rl;
+            count("cases_with_a_music_load_after_setting_the_device_id");
+        }
+    }
     std::vector<Mut> muts;
     if(sel < K_NKINDS) mutations(muts, mk_valid(r, sel, id), id, r);
     else for(int i = 0; i < 260; i++) { Mut x; x.m = random_string(r, id, x.fam); muts.push_back(x); }
